@@ -57,3 +57,26 @@ Proof.
   exists y. auto.
 Qed.
 Print Assumptions C17_schema.
+
+(* Any number of passes: on that class, formatting n+1 times gives the canonical text, whatever n is - the fixed point is reached by
+   the first pass and never left - and, with C16_schema, the text after any number of passes still reads back as the File of the
+   definitions.  (The check's correspondence run formats twice; this is what makes two passes enough on the class.) *)
+Fixpoint format_iter (n : nat) (x : bytes) : option bytes :=
+  match n with
+  | O => Some x
+  | S k => match format x with POk y _ => format_iter k y | _ => None end
+  end.
+Definition C17_schema_iter_statement : Prop :=
+  forall dl lay tail n,
+    Forall sdefn_ok dl -> map snd lay = schema_lexemes dl -> Forall (fun p => hws (fst p)) lay -> sep_ok lay -> hws tail ->
+    format_iter (S n) (render lay tail) = Some (schema_canon dl) /\
+    (exists s, read_file (schema_canon dl) false = POk (schema_file dl) s).
+Theorem C17_schema_iter : C17_schema_iter_statement.
+Proof.
+  intros dl lay tail n H1 H2 H3 H4 H5.
+  destruct (schema_laws dl lay tail H1 H2 H3 H4 H5) as (y & (s1 & Hf) & Hy & (s2 & Hi) & (s3 & Hr) & _). subst y.
+  split; [|exists s3; exact Hr].
+  cbn [format_iter]. rewrite Hf. clear Hf s1.
+  induction n as [|n IH]; [reflexivity|]. cbn [format_iter]. rewrite Hi. exact IH.
+Qed.
+Print Assumptions C17_schema_iter.
